@@ -75,6 +75,7 @@ fn composite_samples() -> Vec<Value> {
     d_sc.insert("dt".into(), Value::make_datetime(libhaystack::val::DateTime::parse_from_rfc3339_with_timezone("2021-06-19T19:48:23-04:00", "New_York").unwrap()));
     d_sc.insert("dtz".into(), Value::make_datetime_from_iso("2021-06-19T19:48:23Z").unwrap());
     d_sc.insert("dtl".into(), Value::make_datetime(libhaystack::val::DateTime::parse_from_rfc3339_with_timezone("2021-01-19T19:48:23Z", "London").unwrap()));
+    d_sc.insert("dtk".into(), Value::make_datetime(libhaystack::val::DateTime::parse_from_rfc3339_with_timezone("2021-06-19T19:48:23+05:30", "Kolkata").unwrap()));
     d_sc.insert("date".into(), Value::make_date(libhaystack::val::Date::from_ymd(2021, 6, 19).unwrap()));
     d_sc.insert("time".into(), Value::make_time(libhaystack::val::Time::from_hms_milli(23, 59, 59, 999).unwrap()));
     d_sc.insert("unit".into(), Value::make_number_unit(3.0, libhaystack::units::get_unit_or_default("kW")));
